@@ -126,6 +126,27 @@ func main() {
 			code = cmdCheck(os.Args[2:])
 		case "list":
 			code = cmdList(os.Args[2:])
+		case "reads":
+			w, err := loadWorld()
+			if err != nil {
+				fmt.Fprintln(os.Stderr, err)
+				code = 2
+				break
+			}
+			for n, fn := range w.funcs {
+				if strings.Contains(n, os.Args[2]) {
+					var rs, ws []string
+					for id := range mayReadKeys(w.prog, fn) {
+						rs = append(rs, id)
+					}
+					for id := range mayWriteKeys(w.prog, fn) {
+						ws = append(ws, id)
+					}
+					sort.Strings(rs)
+					sort.Strings(ws)
+					fmt.Println(n, "\n  reads:", rs, "\n  writes:", ws)
+				}
+			}
 		default:
 			fmt.Fprintln(os.Stderr, "unknown command")
 			code = 2
@@ -243,6 +264,9 @@ func cmdFunc(args []string) int {
 					rc = 1
 				}
 				fmt.Printf("  %s %-70s %-8s %-7s %.2fs %v\n", mark, s.o.Name, s.res.Status, s.res.Solver, s.res.Seconds, s.res.All)
+				if !ok {
+					fmt.Println("       at:", s.o.Pos, "|", s.o.Clause)
+				}
 				if !ok && len(s.o.Goal) < 600 {
 					fmt.Println("       goal:", s.o.Goal)
 				}
